@@ -1,4 +1,5 @@
 """C04 - CPR decode with a reference position (airborne and surface)."""
+import math
 from hypothesis import strategies as st
 
 import pyModeS as pms
@@ -66,9 +67,9 @@ def chk_ref(case, note):
         b = 0 if b & 8 else 0x7FFF
         note.cls("round-cpr-fields-and-corner-altitude")
     if surface:
-        me = cpr.me_surface(case["tc"], i, e["yz"], e["xz"], b & 127, (b >> 7) & 1, (b >> 8) & 127 & 127, 0)
+        me = cpr.me_surface(case["tc"], i, e["yz"], e["xz"], b & 127, (b >> 7) & 1, (b >> 8) & 127 & 127, (b >> 6) & 1)   # T bit either way
     else:
-        me = cpr.me_airborne(case["tc"], i, e["yz"], e["xz"], b & 4095, (b >> 12) & 3, (b >> 14) & 1, 0)
+        me = cpr.me_airborne(case["tc"], i, e["yz"], e["xz"], b & 4095, (b >> 12) & 3, (b >> 14) & 1, (b >> 6) & 1)
     msg = frames.tohex(frames.df17(case["ctx_icao"], me, ca=b & 7, df=case["df"]), 112, case.get("hc", "U"))
     if cpr.near_transition(e["rlat"], 1e-9):
         note.cls("ambiguous-transition")
@@ -89,6 +90,14 @@ def chk_ref(case, note):
     if max(abs(case["f2"]), abs(case["g2"])) <= 0.499:
         # a single-precision reference (receiver position kept in a float32 array): its rounding error (< 1e-5 deg) keeps it inside the box
         refs.append((np.float32(r2[0]), np.float32(r2[1])))
+    # references exactly on the antimeridian (either sign, float or int) or on a pole, when that lies inside the half-zone box
+    base_ = 90.0 if surface else 360.0
+    if cpr.lon_diff(e["rlon"], 180.0) < 0.499 * base_ / max(e["nl"] - i, 1):
+        refs += [(r1[0], 180.0), (r2[0], -180.0), (r3[0], 180)]
+        note.cls("reference-on-the-antimeridian")
+    if 90.0 - abs(e["rlat"]) < 0.499 * base_ / (60 - i):
+        refs += [(math.copysign(90.0, e["rlat"]), r1[1]), (int(math.copysign(90, e["rlat"])), r2[1])]
+        note.cls("reference-on-a-pole")
     dstep = e["dlon_step"] * (1 if not surface else 1)  # surface: 19-bit bins of a 360/ni zone == 17-bit bins of 90/ni
     if b & 2:
         variants.prelude(pms, msg)   # helpers on the same string, and other message types of the same aircraft, decoded first
